@@ -116,6 +116,13 @@ class XsdAssert(XsdComponent, ElementPathMixin[Union['XsdAssert', SchemaElementT
             if self._built is None:
                 self._built = False
 
+    def __setstate__(self, state: dict[str, Any]) -> None:
+        super().__setstate__(state)
+        if hasattr(self, 'parser') and not hasattr(self.parser, 'source'):
+            # The state of the XPath parser doesn't include the source,
+            # that is needed to report the position of a dynamic error
+            self.parser.source = self.path
+
     def __call__(self,
                  obj: ElementType,
                  validation: str,
